@@ -44,6 +44,14 @@ unsafe impl OpCode for CloseFile {
     fn call_blocking(&mut self, control: &mut Self::Control) -> io::Result<usize> {
         self.call(control)
     }
+
+    unsafe fn set_result(&mut self, _: &mut Self::Control, res: &io::Result<usize>, _: &Extra) {
+        // A close request cancelled before the kernel ran it leaves the descriptor
+        // open, and nobody else can close it any more.
+        if matches!(res, Err(e) if e.raw_os_error() == Some(libc::ECANCELED)) {
+            unsafe { ManuallyDrop::drop(&mut self.fd) };
+        }
+    }
 }
 
 unsafe impl<S: AsFd> OpCode for TruncateFile<S> {
